@@ -504,17 +504,17 @@ func backoffCases(r *hk.Run, rng *hk.Rand) {
 		}()
 		r.Count("backoff." + shape)
 		if pan != "" {
-			r.Fail(hk.Failure{Sig: "backoff:panic:" + shape, What: "the built-in backoff interval function panics", Input: in, Got: pan})
+			failCapped(r, hk.Failure{Sig: "backoff:panic:" + shape, What: "the built-in backoff interval function panics", Input: in, Got: pan})
 			r.Add(hk.Case{Desc: in}, fmt.Sprint("b|", mn, mx, a), false)
 			continue
 		}
 		// within its configured bounds: never above max (for max >= 0), never negative for
 		// non-negative settings, and at least half the capped exponential when jitter applies
 		if mx >= 0 && int64(d) > mx {
-			r.Fail(hk.Failure{Sig: "backoff:above-max:" + shape, What: "backoff interval exceeds the configured maximum", Input: in, Got: int64(d), Want: mx})
+			failCapped(r, hk.Failure{Sig: "backoff:above-max:" + shape, What: "backoff interval exceeds the configured maximum", Input: in, Got: int64(d), Want: mx})
 		}
 		if mn >= 0 && mx >= 0 && d < 0 {
-			r.Fail(hk.Failure{Sig: "backoff:negative:" + shape, What: "negative backoff interval", Input: in, Got: int64(d)})
+			failCapped(r, hk.Failure{Sig: "backoff:negative:" + shape, What: "negative backoff interval", Input: in, Got: int64(d)})
 		}
 		if mn >= 1 && mx >= 2 && a >= 1 {
 			capped := mx
@@ -522,7 +522,7 @@ func backoffCases(r *hk.Run, rng *hk.Rand) {
 				capped = mn << uint(a)
 			}
 			if int64(d) < capped/2 {
-				r.Fail(hk.Failure{Sig: "backoff:below-half:" + shape, What: "backoff interval below half the capped exponential", Input: in, Got: int64(d), Want: capped / 2})
+				failCapped(r, hk.Failure{Sig: "backoff:below-half:" + shape, What: "backoff interval below half the capped exponential", Input: in, Got: int64(d), Want: capped / 2})
 			}
 		}
 		coq := fmt.Sprintf("BackoffCase %s %s %s %s", hk.CoqZ(mn), hk.CoqZ(mx), hk.CoqZ(int64(a)), hk.CoqZ(int64(d)))
